@@ -183,7 +183,7 @@ Theorem cone_factor_monotone :
   Rabs (th1 - thc) < Rabs (th2 - thc) -> ZHS_e_omega E d psi th2 thc f < ZHS_e_omega E d psi th1 thc f)) /\
   ((forall E hadE emf hadf d th thc f,
   AVZ_em_tmp E hadE emf hadf d th thc f =
-  if Rgtb emf 0 then avz_em_K E d thc f * sin th * avz_gauss th thc (AVZ_dThetaEM E hadE emf hadf d th thc f) else 0) /\
+  if Rgtb E 0 then avz_em_K E d thc f * sin th * avz_gauss th thc (AVZ_dThetaEM E hadE emf hadf d th thc f) else 0) /\
   (forall th1 th2 thc sigma,
   Rabs (th1 - thc) <= Rabs (th2 - thc) -> avz_gauss th2 thc sigma <= avz_gauss th1 thc sigma) /\
   (forall K th1 th2 thc sigma, 0 <= K -> sigma <> 0 ->
@@ -207,7 +207,7 @@ Print Assumptions cone_factor_monotone.
 Theorem em_on_cone_linear_in_energy :
   (forall times c E d psi n t0, c <> 0 ->
   zhs_values times (c * E) d psi n t0 = map (fun v => c * v) (zhs_values times E d psi n t0)) /\
-  (forall c E hadE emf hadf d thc f,
+  (forall c E hadE emf hadf d thc f, 0 <= c ->
   AVZ_em_tmp (c * E) hadE emf hadf d thc thc f = c * AVZ_em_tmp E hadE emf hadf d thc thc f) /\
   (forall profile times c E th d n t0, c <> 0 -> E <> 0 ->
   ARZ_ss_oncone (first_time times) (second_time times) (ZL times) E th n t0 = true ->
